@@ -70,9 +70,10 @@ func init() {
 			}
 			budget := func(o *opCase) { c.Dev.Budget = c.Dev.Seq + c08Budget(len(o.data)) }
 
-			// reference: the probe on pristine state
+			// reference: the probe on pristine state (empty pools: the run is a function of its
+			// seed and index, not of what earlier runs in this worker left in the pools)
 			harness.LogDefault()
-			harness.Pristine()
+			harness.GCPoint()
 			budget(probe)
 			ref, _ := probe.run(c, Delivery{})
 			if c.PlanOnly {
